@@ -270,10 +270,14 @@ class Properties:
                         and (value < 0 or value > 65535):
 
                     raise MQTTException(f"{name} property value must be in the range 0-65535")
-                elif name in ["MaximumPacketSize", "SubscriptionIdentifier"] \
+                elif name in ["SubscriptionIdentifier"] \
                         and (value < 1 or value > 268435455):
 
                     raise MQTTException(f"{name} property value must be in the range 1-268435455")
+                elif name in ["MaximumPacketSize"] \
+                        and (value < 1 or value > 4294967295):
+
+                    raise MQTTException(f"{name} property value must be in the range 1-4294967295")
                 elif name in ["RequestResponseInformation", "RequestProblemInformation", "PayloadFormatIndicator"] \
                         and (value != 0 and value != 1):
 
